@@ -255,6 +255,43 @@ def run(ctx, build):
                                    'failure_mode': 'index_not_cartesian_fastest_first', 'what': 'sizes %s' % sizes,
                                    'case': {'sizes': sizes, 'is_spectral': True}})
         scribble(ind, val)
+    # designed: reference values that are NEARLY 0, 1, 2, ... (exact float32 comparison, outside the dyadic value model), and a
+    # second write into the same group under the same names with OTHER values (refused, or written correctly -- never the old values)
+    hist['near_integer_value_cases'] = 0
+    for vals0 in ([0.0, 1.000004, 2.000007, 2.99998], [3e-9, 1.0, 2.0, 3.0], [0.0, 1.0, 2.0, 3.0], [0.0, 1.0 + 2 ** -20, 2.0]):
+        vs = [np.array(vals0, dtype=np.float64), np.array([0.5, 1.5], dtype=np.float64)]
+        exp_i = fastest_first([len(v) for v in vs])
+        hist['near_integer_value_cases'] += 1
+        for is_spectral in (True, False):
+            ind, val = abu.build_ind_val_matrices([v for v in vs], is_spectral=is_spectral)
+            i2, v2 = (np.asarray(ind), np.asarray(val)) if is_spectral else (np.asarray(ind).T, np.asarray(val).T)
+            want_v = np.array([np.float32(vs[d])[exp_i[d]] for d in range(2)])
+            if not np.array_equal(i2.astype(np.int64), exp_i) or not np.array_equal(v2.astype(np.float32), want_v):
+                out.violations.append({'call_site': 'anc_build_utils.build_ind_val_matrices', 'input_class': 'any', 'failure_mode': 'value_not_value_of_index',
+                                       'what': 'values %s is_spectral %s -> %s' % (vals0, is_spectral, v2.tolist()), 'case': {'values': vals0, 'is_spectral': is_spectral}})
+            grp = h5.create_group('near%05d' % gi)
+            gi += 1
+            dims1 = [usid.Dimension('L0', 'U0', vs[0]), usid.Dimension('L1', 'U1', vs[1])]
+            dims2 = [usid.Dimension('L0', 'U0', vs[0] + 1.0), usid.Dimension('L1', 'U1', vs[1] * 3.0)]
+            base = 'Spectroscopic_' if is_spectral else 'Position_'
+            with common.quiet():
+                write_ind_val_dsets(grp, dims1, is_spectral=is_spectral, slow_to_fast=False)
+            got1 = grp[base + 'Values'][()]
+            got1 = got1 if is_spectral else got1.T
+            if not np.array_equal(got1.astype(np.float32), want_v[::-1]):
+                out.violations.append({'call_site': 'hdf_utils.write_ind_val_dsets', 'input_class': 'any', 'failure_mode': 'written_matrix_not_cartesian_slowest_first',
+                                       'what': 'values %s is_spectral %s -> %s' % (vals0, is_spectral, got1.tolist()), 'case': {'values': vals0, 'is_spectral': is_spectral}})
+            try:
+                with common.quiet():
+                    hi2, hv2 = write_ind_val_dsets(grp, dims2, is_spectral=is_spectral, slow_to_fast=False)
+                got2 = hv2[()] if is_spectral else hv2[()].T
+                want2 = np.array([np.float32(vs[1] * 3.0)[exp_i[1]], np.float32(vs[0] + 1.0)[exp_i[0]]])
+                if not np.array_equal(got2.astype(np.float32), want2):
+                    out.violations.append({'call_site': 'hdf_utils.write_ind_val_dsets', 'input_class': 'any', 'failure_mode': 'second_write_returns_values_of_the_first',
+                                           'what': 'second write into the same group (other values) returned %s' % got2.tolist(),
+                                           'case': {'values': vals0, 'is_spectral': is_spectral, 'history': 'two writes into one group'}})
+            except Exception:
+                pass                                   # refusing the second write is fine
     # designed: the step counts arrive as a numpy array of a narrow integer type (the running products must not wrap in it)
     hist['narrow_typed_step_arrays'] = 0
     for dt, sizes in ((np.uint8, [20, 20, 2]), (np.int8, [12, 11, 3]), (np.uint16, [300, 300, 2]), (np.int16, [200, 200, 3]), (np.uint8, [16, 16, 2]),
